@@ -140,7 +140,7 @@ func checkC19(c *mc.Ctx) {
 	c.Ev.Level = "model_checking"
 	c.Ev.Rule = "for each stream of n packets all 2^n per-packet skip decisions plus structured predicates, through NextPacket and NextData, compared with the real Demuxer run on the physically filtered stream; predicate call log compared with the reference decoding of every packet; PacketsParser observer / replacer / failing-at-k for every k; distinct_nontrivial = distinct (stream, API, decision vector / parser mode) runs"
 	c.Ev.Assumptions = append(c.Ev.Assumptions, "per-packet decisions are implemented by a call counter inside the predicate (the predicate is consulted once per packet in stream order - itself checked)")
-	for _, st := range c19StreamsT(c.Seed, c.Thorough()) {
+	for _, st := range append(c19StreamsT(c.Seed, c.Thorough()), IdenticalRunsStream(c.Seed)) {
 		n := len(st.Pkts)
 		if n > 16 {
 			continue
@@ -236,9 +236,26 @@ func checkC19(c *mc.Ctx) {
 				c.Ev.Class("structured-predicate", 1)
 			}
 		}
-		c19Parsers(c, st, refPk)
+		if st.Name != "identical-runs" { // which duplicate reaches a unit is C06's subject
+			c19Parsers(c, st, refPk)
+		}
 	}
 	c.Ev.Require("mixed-skip-vector", "structured-predicate", "parser-observer", "parser-replacer", "parser-replacer-returns-nothing")
+}
+
+// IdenticalRunsStream carries runs of byte-identical packets (null packets with the same undefined
+// counter, a PES packet and a PAT followed by their permitted duplicate, repeated PCR-only packets):
+// a per-packet decision must still be asked for each of them.
+func IdenticalRunsStream(seed int64) *Stream {
+	null := &ref.Pkt{PID: 0x1fff, HasPL: true, CC: 5, Payload: bytes.Repeat([]byte{0xff}, 184)}
+	cc := []uint8{6, 2}
+	pes := Packetize(PESUnit(0x100, 0xe0, pesPayload(41, 300, seed), 7, false), nil, &cc[0], false)
+	pat := Packetize(PSIUnit(0, 0, [][]byte{SecPAT(modelPAT(1, 0x1000), ref.SecHdr{CNI: true})}, nil), nil, &cc[1], true)
+	pcr := &ref.Pkt{PID: 0x100, HasAF: true, AF: &ref.AF{PCR: &ref.PCR{Base: 77, Ext: 3}, Stuffing: 176}, CC: pes[len(pes)-1].CC}
+	ps := []*ref.Pkt{null, null, null, pat[0], pat[0], pes[0], pes[0]}
+	ps = append(ps, pes[1:]...)
+	ps = append(ps, pcr, pcr)
+	return &Stream{Name: "identical-runs", Pkts: ps, Bytes: EncodePkts(ps)}
 }
 
 // c19Parsers checks the PacketsParser contract on one stream.
